@@ -661,3 +661,23 @@ def run_history(rng, topo, length, flavour='experiment', hook=None, p_valid=0.8)
             if hook(op, res, exc) is False:
                 break
     return out
+
+
+def make_model(rng, imp, kind):
+    """A model reachable through the topology-building API, for checks that need realistic graphs
+    (C01): returns (property graph object, build script)."""
+    if kind in ('arm', 'adm'):
+        try:
+            from . import subgen
+            return subgen.make_model(rng, imp, kind)
+        except ImportError:
+            kind = 'substrate'
+    flavour = 'substrate' if kind == 'substrate' else 'experiment'
+    topo = new_topology(imp, flavour)
+    script = []
+
+    def hook(op, res, exc):
+        if res == 'ok':
+            script.append(op)
+    run_history(rng, topo, rng.randrange(15, 45), flavour, hook, p_valid=0.95)
+    return topo.graph_model, script
